@@ -1,6 +1,6 @@
 (* C16: the teardown code reduced to its shape, and the model's fan-out chain derived from it.
 
-   tools/translate/c16_registries.py (shapes) reduces 17 functions of the teardown path to the
+   tools/translate/c16_registries.py (shapes) reduces 19 functions of the teardown path to the
    ordered list of their effects (pop / del / emit / cancel / set_result / listener
    registration / sub-hook call), each prefixed by the control structure it sits in and with
    the text of every `if` test.  [expected_shapes] below is that list for the code the model
@@ -119,26 +119,23 @@ Definition expected_shapes : list (string * list string) := [
      "def on_channel>set channel.sink";
      "return"]);
   ("gatt_client.Client.__init__",
-    ["set self.bearer";
-     "set self.mtu_exchange_done";
-     "set self.request_semaphore";
-     "set self.pending_request";
-     "set self.pending_response";
-     "set self.notification_subscribers";
-     "set self.indication_subscribers";
-     "set self.services";
-     "set self.cached_values";
-     "if[att.is_enhanced_bearer(bearer)]";
-     "then>bearer.on(bearer.EVENT_CLOSE)";
-     "then>set self._bearer_id";
-     "then>set self.connection";
-     "else>bearer.on(bearer.EVENT_DISCONNECTION)";
-     "else>set self._bearer_id";
-     "else>set self.connection"]);
+    ["then>bearer.on(bearer.EVENT_CLOSE)";
+     "else>bearer.on(bearer.EVENT_DISCONNECTION)"]);
   ("gatt_client.Client.on_disconnection",
     ["del args";
      "if[self.pending_response and (not self.pending_response.done())]";
      "then>self.pending_response.cancel()"]);
+  ("smp.Session.__init__",
+    ["connection.on(connection.EVENT_DISCONNECTION)";
+     "connection.on(connection.EVENT_CONNECTION_ENCRYPTION_CHANGE)";
+     "connection.on(connection.EVENT_CONNECTION_ENCRYPTION_KEY_REFRESH)"]);
+  ("smp.Session.on_pairing_failure",
+    ["if[self.completed]";
+     "then>return";
+     "set self.completed";
+     "if[self.pairing_result is not None and (not self.pairing_result.done())]";
+     "then>self.pairing_result.set_exception(error)";
+     "self.manager.on_session_end(self)"]);
   ("smp.Session.on_disconnection",
     ["self.connection.remove_listener(self.connection.EVENT_DISCONNECTION)";
      "self.connection.remove_listener(self.connection.EVENT_CONNECTION_ENCRYPTION_CHANGE)";
@@ -293,3 +290,54 @@ Definition remover_ok (tbl : table) (p : string * string) : bool :=
   is_controller_registry (fst p) || hook_eqb (hook_of_method (snd p)) (reg_hook tbl (fst p)).
 
 Definition removers_match (tbl : table) (l : list (string * string)) : bool := forallb (remover_ok tbl) l.
+
+(* ------------------------------------------------------------------ calls that can raise inside the fan-out *)
+(* An exception raised by a listener propagates through the nested emits (pyee re-raises it
+   when nobody listens for 'error') and aborts every later step of the fan-out.  The calls of
+   the disconnection listeners that can raise - remove_listener of a listener that may be
+   absent (KeyError when the event still has other listeners), `del d[k]` / `d[k]`,
+   set_result / set_exception on a future that may be done - are projected out of the
+   regenerated shapes and must be exactly the reviewed list below. *)
+Fixpoint contains (sub s : string) : bool :=
+  String.prefix sub s ||
+  match s with
+  | EmptyString => false
+  | String _ r => contains sub r
+  end.
+
+Definition is_raising_token (t : string) : bool :=
+  contains ".remove_listener(" t || contains "del " t || contains ".set_result(" t ||
+  contains ".set_exception(" t.
+
+Definition disconnection_listeners : list string := [
+  "device.Device.on_disconnection"; "device.Device.on_flush"; "l2cap.ChannelManager.on_disconnection";
+  "gatt_server.Server.on_disconnection"; "gatt_client.Client.on_disconnection";
+  "smp.Session.on_disconnection"; "smp.Manager.on_session_end"; "smp.Session.on_pairing_failure";
+  "sdp.Client.on_channel_close"; "rfcomm.Multiplexer.on_l2cap_channel_close"
+].
+
+Definition raising_calls (sh : list (string * list string)) : list (string * list string) :=
+  map (fun fn => (fn, filter is_raising_token (tokens_of sh fn))) disconnection_listeners.
+
+(* reviewed: why each cannot raise today
+   - ChannelManager.on_disconnection `del reason`: a local name.
+   - Session.on_disconnection: removes the three listeners Session.__init__ registered; nothing
+     else removes them (Session.on_pairing_failure must not: see its shape), and the
+     'disconnection' one is removed by this very call, so the method runs once.
+   - Manager.on_session_end `del self.sessions[...]`: guarded by the `in` test just above.
+   - Session.on_pairing_failure set_exception: guarded by `not done()`. *)
+Definition expected_raising_calls : list (string * list string) := [
+  ("device.Device.on_disconnection", []);
+  ("device.Device.on_flush", []);
+  ("l2cap.ChannelManager.on_disconnection", ["del reason"]);
+  ("gatt_server.Server.on_disconnection", []);
+  ("gatt_client.Client.on_disconnection", ["del args"]);
+  ("smp.Session.on_disconnection",
+    ["self.connection.remove_listener(self.connection.EVENT_DISCONNECTION)";
+     "self.connection.remove_listener(self.connection.EVENT_CONNECTION_ENCRYPTION_CHANGE)";
+     "self.connection.remove_listener(self.connection.EVENT_CONNECTION_ENCRYPTION_KEY_REFRESH)"]);
+  ("smp.Manager.on_session_end", ["then>del self.sessions[session.connection.handle]"]);
+  ("smp.Session.on_pairing_failure", ["then>self.pairing_result.set_exception(error)"]);
+  ("sdp.Client.on_channel_close", []);
+  ("rfcomm.Multiplexer.on_l2cap_channel_close", [])
+].
